@@ -131,9 +131,13 @@ pub fn key_pool(scheme: Scheme, seed: u64) -> Vec<RefKey> {
 }
 
 pub fn custom_key(r: &mut impl RngCore) -> Vec<u8> {
-    const KS: [&[u8]; 22] = [
+    // neighbours of the reserved keys, byte-value corners, and the keys other ENR users define (consensus and
+    // execution clients, discv5, libp2p): a library that special-cases one of them without being asked to shows here
+    const KS: [&[u8]; 44] = [
         b"a", b"eth2", b"attnets", b"client", b"i", b"ic", b"ie", b"ip5", b"ip7", b"ipp", b"secp256k0",
         b"secp256k2", b"tcp5", b"tcp7", b"udp5", b"udp7", b"z", b"\x00", b"\x7f", b"\x80", b"\xff\xff", b"snap",
+        b"quic", b"quic6", b"eth", b"les", b"syncnets", b"csc", b"cgc", b"nfd", b"opstack", b"bzz", b"rlpx", b"v4", b"v5",
+        b"ip4", b"tcp4", b"udp4", b"port", b"pubkey", b"sig", b"seq", b"enr", b"multiaddr",
     ];
     match below(r, 10) {
         0 => {
@@ -431,6 +435,12 @@ pub fn structural_mutants(rec: &Rec, r: &mut impl RngCore) -> Vec<(&'static str,
             ("ip6-as-list", b"ip6", Item::L(vec![])),
             ("port-too-long", b"tcp", Item::S(vec![1, 0, 0])),
             ("port-too-long", b"udp6", Item::S(vec![1, 2, 3, 4])),
+            // longer than two bytes but CONGRUENT to a port modulo 65536 (a parser that truncates reads that port;
+            // the second signing is over the record with that port)
+            ("port-too-long-congruent", b"udp", Item::S(vec![0x01, 0x76, 0x5f])),
+            ("port-too-long-congruent", b"tcp", Item::S(vec![1, 0, 0, 0, 0, 0, 0x1f, 0x90])),
+            ("port-too-long-congruent", b"tcp6", Item::S(vec![0xff, 0x00, 0x50])),
+            ("port-too-long-congruent", b"udp6", Item::S(vec![1, 0, 0])),
             ("port-leading-zero", b"udp", Item::S(vec![0, 80])),
             ("port-leading-zero", b"tcp6", Item::S(vec![0])),
             ("port-leading-zero", b"tcp", Item::S(vec![0, 0])),
@@ -452,6 +462,11 @@ pub fn structural_mutants(rec: &Rec, r: &mut impl RngCore) -> Vec<(&'static str,
                     let nz: Vec<u8> = b[first..].to_vec();
                     Some(Item::S(nz))
                 }
+                ("port-too-long-congruent", Item::S(b)) => {
+                    let low = &b[b.len() - 2..];
+                    let first = low.iter().position(|&x| x != 0).unwrap_or(2);
+                    Some(Item::S(low[first..].to_vec()))
+                }
                 ("port-noncanonical", Item::R(b)) if b[0] == 0x81 => Some(Item::S(vec![b[1]])),
                 ("port-noncanonical", Item::R(b)) => Some(Item::S(b[2..].to_vec())),
                 _ => None,
@@ -470,6 +485,10 @@ pub fn structural_mutants(rec: &Rec, r: &mut impl RngCore) -> Vec<(&'static str,
             alts.push(("seq-leading-zero", Item::S([vec![0u8], sb.clone()].concat())));
         }
         alts.push(("seq-too-long", Item::S([vec![1u8], vec![0u8; 8]].concat())));
+        // overlong items whose LOW 64 bits are the signed sequence number (a parser that folds bytes without a
+        // length limit reads the signed value)
+        alts.push(("seq-too-long", Item::S([vec![0xaau8], rec.seq.to_be_bytes().to_vec()].concat())));
+        alts.push(("seq-too-long", Item::S([vec![0x01u8; 8], rec.seq.to_be_bytes().to_vec()].concat())));
         alts.push(("seq-too-long", Item::S([vec![0u8], vec![0xffu8; 8]].concat())));
         if sb.len() == 1 && sb[0] < 0x80 {
             alts.push(("seq-noncanonical", Item::R(vec![0x81, sb[0]])));
